@@ -165,7 +165,31 @@ def _mentions(node, word):
             return True
         if isinstance(sub, ast.Attribute) and sub.attr.endswith(word):
             return True
+        # a value kept in a dict of parameters: self.__args["est_elements"]
+        if isinstance(sub, ast.Subscript) and isinstance(sub.slice, ast.Constant) and isinstance(sub.slice.value, str) and sub.slice.value.endswith(word):
+            return True
     return False
+
+
+def _class_functions(tree, cls):
+    for node in tree.body:
+        if isinstance(node, ast.ClassDef) and node.name == cls:
+            return [st for st in node.body if isinstance(st, (ast.FunctionDef, ast.AsyncFunctionDef))]
+    raise ExtractError(f"class {cls} not found")
+
+
+def guard_fact_anywhere(tree, cls, preferred, left_word, right_word, what, **kw):
+    """the guard is looked for in the method it lives in today; when that method is gone (renamed, merged), in
+    every method of the class, in source order — the marker of the guarded action is what identifies it"""
+    try:
+        return guard_fact(_find_def(tree, cls, preferred), left_word, right_word, what, **kw)
+    except ExtractError as first:
+        for fn in _class_functions(tree, cls):
+            try:
+                return guard_fact(fn, left_word, right_word, what, **kw)
+            except ExtractError:
+                continue
+        raise first
 
 
 def _split_offset(node):
@@ -738,9 +762,9 @@ def _extract_into(repo, facts, attempt):
     attempt(["cmsLn2"], cms_float)
 
     # guards
-    attempt(["expGrowCmp"], lambda: guard_fact(_find_def(exp, "ExpandingBloomFilter", "__check_for_growth"), "elements_added", "est_elements", "expanding growth test", marker=marker_calls("add_bloom")))
-    attempt(["rotReadyCmp"], lambda: guard_fact(_find_def(exp, "RotatingBloomFilter", "__rotate_bloom_filter"), "elements_added", "estimated_elements", "rotating ready test"))
-    attempt(["rotRoomCmp"], lambda: guard_fact(_find_def(exp, "RotatingBloomFilter", "__rotate_bloom_filter"), "current_queue_size", "_queue_size", "rotating room test"))
+    attempt(["expGrowCmp"], lambda: guard_fact_anywhere(exp, "ExpandingBloomFilter", "__check_for_growth", "elements_added", "est_elements", "expanding growth test", marker=marker_calls("add_bloom")))
+    attempt(["rotReadyCmp"], lambda: guard_fact_anywhere(exp, "RotatingBloomFilter", "__rotate_bloom_filter", "elements_added", "estimated_elements", "rotating ready test"))
+    attempt(["rotRoomCmp"], lambda: guard_fact_anywhere(exp, "RotatingBloomFilter", "__rotate_bloom_filter", "current_queue_size", "_queue_size", "rotating room test"))
     attempt(["cmsAddClampCmp"], lambda: guard_fact(_find_def(cms, "CountMinSketch", "add_alt"), None, "INT32_T_MAX", "cms add clamp", clamp=True, marker=marker_assigns("INT32_T_MAX")))
     attempt(["cmsRemoveKeepCmp"], lambda: guard_fact(_find_def(cms, "CountMinSketch", "remove_alt"), None, "INT32_T_MIN", "cms remove clamp", clamp=True, marker=marker_assigns("INT32_T_MIN"), negate=True))
     attempt(["cmsTotalMaxCmp"], lambda: guard_fact(_find_def(cms, "CountMinSketch", "add_alt"), "elements_added", "INT64_T_MAX", "cms total clamp", clamp=True, marker=marker_assigns("INT64_T_MAX")))
